@@ -19,7 +19,7 @@ import inspect
 
 import numpy as np
 
-from .. import bases, bootstrap, contracts, fingerprint as fpr
+from .. import aging, bases, bootstrap, contracts, fingerprint as fpr
 
 PROPERTY = "C16"
 RULE = ("Every public getter and query/export method (enumerated by reflection, so new members are included) of every shape class on "
@@ -314,6 +314,31 @@ def run_case(i, rng, rec, tier, state):
     R.check_state("repeat", [l1])
     if r1[0] == "not-provided":
         rec.note(f"{cname}.{l1}: not provided")
+    # the same query on an object with a past: every array-valued observable was handed out on the new object, then the shape
+    # was moved / resized through its setters (what a setter does to those arrays is its own business: they are re-read
+    # afterwards), and only then the query runs - it must leave those earlier arrays and the state alone, and answer the same twice
+    R3 = Runner(rec, cs, cname, blabel, ctor, state["tmp"])
+    hist = aging.age(R3.s, np.random.default_rng([i, 16]), steps=2, allow=("size", "move", "axis", "radius"), reads=False)
+    if hist:
+        rec.cls("history:handed-out-then-changed")
+        with contracts.quiet():
+            R3.size, R3.L = fpr.length_scale(R3.s)
+        # first the arrays alone, against copies taken before anything else (even the harness's own observation) reads the shape
+        snap = {tag: (arr, arr.copy()) for tag, (arr, _) in R3.handed.items()}
+        l3, r3 = R3.run(qi)
+        for tag, (arr, cp) in snap.items():
+            same = arr.shape == cp.shape and (arr.dtype.kind not in "fc" and np.array_equal(arr, cp) or
+                                              arr.dtype.kind in "fc" and bool(np.all(np.abs(arr - cp) <= 1e-12 * R3.L)))
+            rec.check("handed-out-unchanged", bool(same), f"{cname}.{l3}/alters-array-handed-out-before-the-shape-was-changed:{tag.split('[')[0]}",
+                      lambda tag=tag, arr=arr, cp=cp: {"class": cname, "base": blabel, "query": l3, "history": hist, "array": tag, "before": cp, "after": arr})
+        # then state, later arrays and the repeated answer, from a baseline taken on the changed object
+        R3.rebaseline()
+        l3, r3 = R3.run(qi)
+        R3.check_state("after-history", [l3])
+        l3b, r3b = R3.run(qi)
+        same3 = r3[0] == r3b[0] and (r3[0] != "ok" or canon_equal(r3[1], r3b[1], R3.L)) and (r3[0] != "raises" or r3[1] == r3b[1])
+        rec.check("repeat-same-answer", same3, f"{cname}.{l1}/repeated-query-differs-after-history", {"class": cname, "base": blabel, "query": l1, "history": hist})
+        R3.check_state("after-history-repeat", [l3])
     # ordered pairs: fresh object per q1 keeps attribution clean; q2's answer must equal its answer on a pristine object
     alone = {}
     Rp = Runner(rec, cs, cname, blabel, ctor, state["tmp"])
